@@ -30,7 +30,11 @@ def shard_main(pid, spec_path, out_path):
     S.MONITOR.update(R=R, pid=pid)
     H.PICK_OFFSET = 7919 * int(spec.get("sub", 0) or 0)
     try:
-        mod.run_shard(spec, R)
+        if spec.get("kind") == "reuse":
+            from . import reuse
+            reuse.shard(spec, R, pid)
+        else:
+            mod.run_shard(spec, R)
     except Exception as exc:
         # an exception of the harness/oracle itself is never a violation; one raised *inside the tree under test* on an
         # input the workload treats as in-contract (it did not expect or catch it) is an observed failure of that code
@@ -104,6 +108,10 @@ def main(argv=None):
     H.setup_paths()
     mod = load(pid)
     specs = mod.plan(a.tier, seed)
+    from . import reuse
+    if pid in reuse.PIDS:  # life-cycle workload shared by every property that is reached through a cached accessor
+        for i in range(2 if a.tier == "quick" else 6):
+            specs.append({"kind": "reuse", "sub": i, "cases": 40 if a.tier == "quick" else 1500, "budget_s": 100 if a.tier == "quick" else 600})
     for i, s in enumerate(specs):
         s.setdefault("shard", i)
         s.setdefault("seed", seed)
